@@ -170,6 +170,40 @@ def lattice(tier):
     return out
 
 
+def many_subsets(tier):
+    """columns of 5..100 subsets ("dozens of subsets"): all entries a except one b at the first / middle / last position,
+    alternating a b, and a ramp, for a, b over the boundary lattice of the width; numeric, code and character fields"""
+    out = []
+    ns = (5, 12, 33, 64) if tier == 'quick' else (5, 12, 31, 33, 64, 100)
+    for w in ((2, 7, 8, 16, 33, 64) if tier == 'quick' else (2, 3, 7, 8, 9, 16, 24, 32, 33, 48, 63, 64)):
+        dom = [None, 0, 1, 1 << (w - 1), (1 << w) - 2]
+        dom = [x for i, x in enumerate(dom) if x not in dom[:i]]
+        for n in ns:
+            for a in dom:
+                for b in dom:
+                    if a == b and not (a == dom[0] or a == 0):
+                        continue
+                    for k in (0, n // 2, n - 1):
+                        col = [a] * n
+                        col[k] = b
+                        out.append(['num', w, col])
+                    out.append(['num', w, [a if i % 2 == 0 else b for i in range(n)]])
+            out.append(['num', w, [i % ((1 << w) - 1) for i in range(n)]])
+            out.append(['num', w, [None if i % 3 == 0 else (i * 7) % ((1 << w) - 1) for i in range(n)]])
+    for n in ns:
+        for a, b in itertools.product([None, b'ab', b'  ', b'zz'], repeat=2):
+            for k in (0, n - 1):
+                col = [a] * n
+                col[k] = b
+                out.append(['str', 16, col])
+        for w in (6,):
+            for a, b in itertools.product([None, 0, 62, 31], repeat=2):
+                col = [a] * n
+                col[n // 2] = b
+                out.append(['code', w, col])
+    return out
+
+
 def run_columns(cases):
     p = Partial()
     for case in cases:
@@ -254,6 +288,12 @@ def main(tier, seed):
     p.n['nodes'], p.n['edges'] = len(cases) + 1, len(cases)
     p.sample(cases[0]); p.sample(cases[-1])
     rep.add_part('lattice', p, bounds={'widths': '5..64', 'columns': len(cases)})
+    cases = many_subsets(tier)
+    p = merge_all(run_shards(run_columns, split(cases, 64)))
+    p.n['nodes'], p.n['edges'] = len(cases) + 1, len(cases)
+    p.sample(cases[len(cases) // 2][:2] + [cases[len(cases) // 2][2][:6]])
+    rep.add_part('many-subsets', p, bounds={'subsets': sorted({len(c[2]) for c in cases}), 'widths': sorted({c[1] for c in cases}),
+                                            'columns': len(cases), 'shapes': 'one deviating entry (first/middle/last), alternating, ramp, ramp with missing'})
 
     for name, pargs, env, bound in ([('bothways-2', dict(k=1, c=1, nested=True), dict(nsub=2), 1),
                                      ('bothways-3', dict(k=2, c=1), dict(nsub=3), 0)] if tier == 'quick' else
